@@ -16,7 +16,7 @@ def obligations(ctx):
         for shape in (0, 1, 2, 3, 6, 7):
             obs.append(Ob("prim/k=%d/shape=%d" % (k, shape), H, "h_prim", {"K": k, "SHAPE": shape}, LIBS,
                           unwind=40, family="znx_normalize primitive",
-                          desc="znx_normalize, nn=2, all |in|<=2^62, all |carry_in|<=2^(63-k): exact 128-bit identity, digit range, inputs untouched"))
+                          desc="znx_normalize, nn=2, all |in|<=2^62, all carry_in of the documented 65-k bits (|cin|<=2^62 at k=1): exact 128-bit identity, digit range, inputs untouched"))
     # (2) vector level through the module dispatch, all (res_size,a_size) in 0..3 (0..4 thorough)
     smax = 3 if ctx.quick else 4
     for k in ks_vec:
@@ -74,7 +74,7 @@ def check(ctx, only=None, list_only=False):
         "bounds": "k: every 1..62 for the primitive; vector level k in {1,2,19,32,61,62} (quick; variants at k=19) / all 62 (thorough); limb counts 0..3 (0..4 thorough) "
                   "in all orderings; N in {1,2}; strides N..N+3; range triples with xend<=4, step 1..3; all data values |a_i|<=2^62 symbolic",
         "outside": "a_size > 3 (4 thorough); N > 2 (coefficients are processed independently); k symbolic in a single query",
-        "assumptions": ["|in| <= 2^62 (documented)", "|carry_in| <= 2^(63-k) for the primitive (documented: at most 65-k bits)",
+        "assumptions": ["|in| <= 2^62 (documented)", "carry_in in [-2^(64-k), 2^(64-k)-1] for k>=2 (documented: at most 65-k bits); |carry_in| <= 2^62 for k=1",
                         "malloc never fails", "module table built by the real fill_virtual_table with CPU detection replaced by a flag"],
     }
     return core.finish(ctx, res, meta)
